@@ -5,7 +5,7 @@ from fractions import Fraction
 
 from ..pm import AnalysisError, norm_src
 from ..flow import CFG, attr_chain
-from ..astutil import replace_node, call_name
+from ..astutil import parents, replace_node, call_name
 from ..e6_algebra import Poly, Rat, to_rat, NotScalarArithmetic, compare_normal
 from ..e5_mirror import mirror_equal, mirror_diff
 from ..e7_order import implies, NotOrderPredicate
@@ -752,7 +752,11 @@ def application(pm, ctx):
                           ("Y[best_split.left_target, best_split.leaf]", "1", "the left part is not assigned to the recorded left target"),
                           ("Y[best_split.right_target, n_leaves]", "1", "the right part (new leaf) is not assigned to the recorded right target"),
                           ("k", "Y[:, best_split.leaf].argmax()", "k is not the current cluster of the split leaf")):
-        expect_assign(ctx, "C08-f", ku, "Kauri.fit", body, tgt, [val], f"Kauri.fit: {tgt}", why)
+        st_ = expect_assign(ctx, "C08-f", ku, "Kauri.fit", body, tgt, [val], f"Kauri.fit: {tgt}", why)
+        if st_ is not None and tgt != "k" and st_ not in body.body:
+            conds = [norm_src(p_.test) for p_ in parents(st_) if isinstance(p_, ast.If) and p_ is not body]
+            ctx.violation("C08-f", ku.relpath, "Kauri.fit", norm_src(st_), f"the state update `{norm_src(st_)}` is conditional ({conds[:1]}): when the condition fails the matrices "
+                          f"Y / Z no longer describe the tree that was just recorded, so labels_ and predict disagree", line=st_.lineno, site=f"Kauri.fit: {tgt} unconditional")
     from ..astutil import as_augassign
     inc_pairs = [(s_, as_augassign(s_)) for s_ in body.body]
     inc_orig = {id(a): s_ for s_, a in inc_pairs if a is not None}
